@@ -232,6 +232,22 @@ pub fn run(tier: &str) {
     }
     fams.push(json!({"family": "structured", "cases": n2}));
 
+    // family 2b: every ASCII character (and a few others) at the start, middle and end of either component
+    let mut n2b = 0u64;
+    let mut probes: Vec<char> = (0u8..=127).map(|b| b as char).collect();
+    probes.extend(['\u{80}', '\u{a0}', 'ß', '\u{7ff}', '\u{ffff}']);
+    for c in probes {
+        for pat in ["/{c}bcd/topic", "/ab{c}cd/topic", "/abc{c}/topic", "/names/{c}opic", "/names/to{c}ic", "/names/topi{c}", "/{c}{c}{c}/{c}{c}{c}"] {
+            let s = pat.replace("{c}", &c.to_string());
+            let r = check_string(&s);
+            evaluations += 1;
+            n2b += 1;
+            record(&mut rep, "ascii-sweep", &s, r, &mut by_verdict);
+        }
+    }
+    samples.push(json!({"family": "ascii-sweep", "string": "/ab^cd/topic", "reference": "Reject"}));
+    fams.push(json!({"family": "ascii-sweep", "cases": n2b}));
+
     // family 3: reserved word elsewhere, separators in odd places, multi-byte first characters
     let odd = [
         "/abc/selium", "/abc/seliumx", "//selium/abc", "selium/abc/def", "/abc/def/selium", "/abc//def", "//abc/def", "/abc/def/", "/abc/def//",
@@ -275,7 +291,7 @@ pub fn run(tier: &str) {
         "evaluations": evaluations,
         "distinct_nontrivial": nontrivial,
         "distinct_cases": total_distinct,
-        "rule": "all strings of length <=5 (thorough 6) over a 14-character alphabet (ASCII word chars, separators, whitespace, 2-4 byte characters, connector punctuation, combining mark); all /ns/tp with component lengths {0,1,2,3,4,63,64,65} x 7 fill characters x 7 reserved-word prefixes; 34 hand-picked odd placements; 19x19 component pairs through create()/is_valid(). Every string is compared with a hand-written character-loop reference. distinct = distinct strings/pairs (hash set); non-trivial = accepted under some reading, or of the shape /x/y, or a component pair",
+        "rule": "all strings of length <=5 (thorough 6) over a 14-character alphabet (ASCII word chars, separators, whitespace, 2-4 byte characters, connector punctuation, combining mark); all /ns/tp with component lengths {0,1,2,3,4,63,64,65} x 7 fill characters x 7 reserved-word prefixes; every one of the 128 ASCII characters (plus 5 others) at the start / middle / end of either component; 34 hand-picked odd placements; 19x19 component pairs through create()/is_valid(). Every string is compared with a hand-written character-loop reference. distinct = distinct strings/pairs (hash set); non-trivial = accepted under some reading, or of the shape /x/y, or a component pair",
         "exhaustive": true,
         "reference_verdicts": {"accept": by_verdict[0], "reject": by_verdict[1], "either_reading_allowed": by_verdict[2]},
         "families": fams,
